@@ -2,4 +2,4 @@ From Coq Require Import Extraction ExtrOcamlBasic.
 From Shisui Require Import Base.Bytes Model.Framing Model.Versions Model.Offer.
 Extraction Language OCaml.
 Extraction "c09_model.ml" bl_encode bl_len bit_indices bit_at set_nth_true clear_at handle_offer handle_offer_as_found
-  handle_offered_contents process_offer parse_offer_resp get_or_store negotiate empty_cache rx_run encode_contents bytes_eqb select.
+  handle_offered_contents process_offer parse_offer_resp get_or_store negotiate empty_cache rx_run rx_accepted encode_contents bytes_eqb select.
